@@ -14,6 +14,8 @@ structure Exec where
   start : Int
   params : Params
   call : BCall
+  fin : Int := start        -- time of the broker call that answered the execution
+  failed : Bool := false
   deriving Repr, DecidableEq, Inhabited
 
 /-- Retry chain of ONE scheduling: executions continue while the ladder answers with a
@@ -27,8 +29,8 @@ def retryChain (policy : Int → Int) (cron : String → Int → Int) (fails : N
     let b := report p (!fails k) fin cron pn
     if fails k && decide (p.retries.alreadyTried < p.retries.maxAmount) then
       let p' := p.prepareRetry fin pn
-      { start, params := p, call := b } ::
+      { start, params := p, call := b, fin := fin, failed := fails k } ::
         retryChain policy cron fails dur lat fuel (k + 1) p' (fin + pn + lat (k + 1))
-    else [{ start, params := p, call := b }]
+    else [{ start, params := p, call := b, fin := fin, failed := fails k }]
 
 end Repid.Worker
